@@ -86,6 +86,31 @@ CLAIMS = {
         note="join/bind pass f's own results through when f itself fails (return f()), as the emitted code does; recorded as an assumption of the spec",
         technique="Lean 4 proof (induction over the stage list with call logs) + differential correspondence",
         engine="lean-model + t1-behaviour", ref="DESIGN.md §6 C16"),
+    "C08": dict(
+        text="Facts regenerated from the current source on every run (go/types-based extractor -> Generated/Facts.lean) and re-checked by the kernel: the list of map-range sites equals the three the theorems cover, there is no mutable package-level state. Lean theorems: each site's result is invariant under any permutation of the iteration order (reserved-name union, the Done conjunction incl. its import side effects, the import block written after sorting paths given the proved import-table invariant 'one alias per path'), and name lookup is registration-ordered with exact match first. Tied by byte comparison of derived.gen.go over repeated runs and invocation variants (alone/grouped/reordered/./.../import path/other cwd/importer pairs) on packages built to be ambiguous, and by NewImport traces on the real printer checked against the model by the kernel.",
+        note="the loader's package identity and ordering are outside the scanned sources (goderive now sorts packages itself); gofmt/parser trusted",
+        technique="regenerated source facts + Lean 4 permutation-invariance proofs + repeated-run/variant byte differential",
+        engine="lean-model + t4-facts + blackbox", ref="DESIGN.md §6 C08"),
+    "C09": dict(
+        text="Facts regenerated from the current source and re-checked by the kernel: no swallowed error in any gen*/field*/Generate/Add function, every constant index into typs is guarded by the length checks that dominate it (for every argument count), the explicit panic sites are exactly the listed ones, each with a theorem that it is unreachable (rename, newCall, Generating on a registered key, In/Out balance condition) and NewImport always returns. The termination proofs of the work list (C01), newName (C11) and the reload loop (C07) are the no-hang arguments. Tied by a malformed-input stream on the real binary: 1567 packages (unsupported constituents at every position x 15 plugins, bad arguments x 18 plugins, named twins, unordered types, broken packages/derived files, alias clashes) under time and memory limits: no panic, no hang, exit 0 only with a file that parses and type-checks, a diagnostic naming call or type otherwise.",
+        note="that every plugin rejects every unsupported type is carried by the stream, not proved; panics inside go/types, go/loader, go/format are outside the model",
+        technique="regenerated source facts + Lean 4 proofs of guard/unreachability + malformed-input stream with compile oracle",
+        engine="lean-model + t4-facts + blackbox", ref="DESIGN.md §6 C09"),
+    "C10": dict(
+        text="Facts regenerated from the current source and re-checked by the kernel: the file-system call sites are exactly the modelled ones and the only source mutators are os.Remove (Delete), os.Create (Print) and os.OpenFile (newPackage) with the flags read from the source. Lean theorems: with O_TRUNC among those flags a rewrite leaves exactly the new bytes (without it a shorter rewrite leaves a tail: witness); without -autoname/-dedup every effect of a pass targets derived.gen.go whatever the outcome; with flags a rewritten file contains a renamed call. Tied by recursive snapshots + strace of 212 runs over all flag combinations and outcomes (every mutating syscall must be a modelled effect) and by a byte oracle for rewritten files (go/format of the original AST with exactly the renamed identifiers substituted; shorter/equal/longer names, unformatted files, trailing comments).",
+        note="go/format, the parser and the loader's read-only behaviour are trusted (strace checks the latter on every run)",
+        technique="regenerated source facts + Lean 4 proof over a byte-level write model + file-system/strace differential",
+        engine="lean-model + t4-facts + blackbox", ref="DESIGN.md §6 C10"),
+    "C19": dict(
+        text="Lean theorems over labelled transition systems for the emitted goroutine structures (fmap over a channel, the WaitGroup join in its chan-of-chan and slice-of-chan forms, the select join, dup, pipeline as a product), quantified over Reachable — every interleaving — and unbounded in number of inputs, items, capacities and close order: delivery accounting (exactly once at quiescence), per-input order, no send on a closed channel, outputs closed once and only after all inputs are closed and drained, progress of every non-final state, clean termination, and a strictly decreasing measure (no livelock). Tied by (T4) the channel-operation skeleton of every emitted function, re-extracted from the file goderive emits now and compared by the kernel with the skeleton the LTS was written for; (T5) the emitted code rewritten onto a deterministic scheduler, explored by seeded random schedules, exhaustive DFS and sleep-set reduced DFS, every step log replayed on the LTS by the driver and the property's observable clauses checked on the run; and real-runtime stress under the race detector.",
+        note="partial: memory-level data-race freedom and the faithfulness of the channel semantics to the Go runtime are observed (race detector, scheduler runs), not proved",
+        technique="Lean 4 proof (inductive invariants over all interleavings) + skeleton facts + scheduler trace validation + race stress",
+        engine="lean-model + t4-conc-facts + t5-sched + race-stress", ref="DESIGN.md §6 C19"),
+    "C20": dict(
+        text="Lean theorems over the transition system of the emitted Do (n workers, unbuffered error channel, pairwise rendezvous between user functions), for every interleaving and every n, failing subset and rendezvous list: all workers are spawned before the first receive, main returns only after every worker has written, the returned tuple is the workers' values in position, the error is nil iff all succeeded and otherwise one actually returned, the write and read of a result variable are never both enabled, progress with rendezvousing functions, termination, no worker left blocked. Tied by the skeleton facts, scheduler trace validation (exhaustive for small n) and race-detector stress as for C19.",
+        note="partial: as C19",
+        technique="Lean 4 proof (inductive invariants over all interleavings) + skeleton facts + scheduler trace validation + race stress",
+        engine="lean-model + t4-conc-facts + t5-sched + race-stress", ref="DESIGN.md §6 C20"),
 }
 
 OTHER = {
@@ -129,6 +154,12 @@ def main():
              "kind_free_text": "Lean 4 models (GoderiveModel/S, G, K), specs (Spec), property theorems (Props/Cxx.lean), per-theorem axiom audit; compiled line-protocol driver (Driver/)"},
             {"name": "t1-behaviour", "path": "harness/", "serves_properties": [c for c in claimed if c in ("C02", "C03", "C04", "C05", "C06", "C13", "C14", "C15", "C16", "C17", "C18")],
              "kind_free_text": "behavioural correspondence: real goderive (rebuilt from /repo) on generated corpora, emitted code compiled and driven by a reflection runtime, Lean driver answers the same op lines, outputs diffed"},
+            {"name": "t3-hooks", "path": "harness-t3/", "serves_properties": [c for c in claimed if c in ("C11", "C12", "C08")],
+             "kind_free_text": "in-process correspondence through /repo/derive/verif_hooks.go (build tag verif): operation sequences on the real typesMap / printer / sortPlugins vs the Lean state machines"},
+            {"name": "t4-facts", "path": "harness/cmd/facts/", "serves_properties": [c for c in claimed if c in ("C08", "C09", "C10", "C12")],
+             "kind_free_text": "go/types-based fact extractor regenerating lean/GoderiveModel/Generated/Facts.lean from /repo's current source; the fact theorems are re-checked by lake build on every run"},
+            {"name": "t5-sched", "path": "harness/vsched/", "serves_properties": [c for c in claimed if c in ("C19", "C20")],
+             "kind_free_text": "emitted concurrent code rewritten onto a deterministic scheduler (random / DFS / sleep-set DFS), step logs replayed on the Lean LTS; skeleton facts in Generated/ConcFacts.lean; race-detector stress"},
             {"name": "blackbox", "path": "vlib/props/", "serves_properties": [c for c in claimed if c in ("C01", "C07", "C08", "C09", "C10", "C11", "C12")],
              "kind_free_text": "runs of the real binary on generated packages/histories with compile, byte and file-system oracles"},
         ],
